@@ -772,6 +772,12 @@ pub fn run_c08(tier: Tier) -> i32 {
                             }
                         }
                     }
+                    // the symbol's own current spelling as the new name: a valid name of the right
+                    // class wherever prepare accepts, refused like any other name where it does not
+                    let own = rename_edits(&an, f.id, s, &t);
+                    if prep != ok(&own) {
+                        rep.violation(Violation { class: if ok(&own) { "accepted-but-must-refuse" } else { "refused-but-valid" }.into(), key: format!("own-name|{}", kind_key(&f.text, s)), witness: json!({"workspace": name, "file": f.rel, "offset": s, "name": t}), detail: format!("[{name}] {t:?} at {}:{s}: prepare_rename {} but rename to the symbol's own name {t:?} {}", f.rel, if prep { "accepts" } else { "refuses" }, if ok(&own) { "is accepted" } else { "is refused" }) });
+                    }
                     for bn in bad_names {
                         if let Ok(Ok(_)) = rename_edits(&an, f.id, s, bn) {
                             rep.violation(Violation { class: "accepted-but-must-refuse".into(), key: format!("malformed-name|{}", kind_key(&f.text, s)), witness: json!({"workspace": name, "file": f.rel, "offset": s, "name": bn}), detail: format!("[{name}] rename of {t:?} at {}:{s} to {bn:?} is accepted", f.rel) });
@@ -780,7 +786,7 @@ pub fn run_c08(tier: Tier) -> i32 {
                 }
             }
         }
-        l2.bound = "every identifier occurrence of the base workspaces w1-w5 and of the probe workspace: prepare_rename accepts <=> rename with a valid lowercase or uppercase name accepts; 8 malformed names are refused; no accepted rename edits a file of a non-local package or is accepted from inside one".into();
+        l2.bound = "every identifier occurrence of the base workspaces w1-w5 and of the probe workspace: prepare_rename accepts <=> rename with a valid lowercase or uppercase name accepts <=> rename to the symbol's own current spelling accepts; 8 malformed names are refused; no accepted rename edits a file of a non-local package or is accepted from inside one".into();
         rep.layer(l2);
     }
     rep.distinct_nontrivial = accepted;
